@@ -13,11 +13,15 @@ pub struct Env {
     pub sched: String,
     /// `0` = no syscall faults, `<seed>:<rs>:<re>:<ws>:<we>` seeded rates, `list:...` explicit faults
     pub io: String,
+    /// transport of the extractor output: `false` = regular file, `true` = a pipe (the production
+    /// transport: the Ghidra plugin writes the project into a named pipe)
+    #[serde(default)]
+    pub pipe: bool,
 }
 
 impl Env {
     pub fn baseline() -> Env {
-        Env { entropy: 0, sched: "sticky".into(), io: "0".into() }
+        Env { entropy: 0, sched: "sticky".into(), io: "0".into(), pipe: false }
     }
 }
 
@@ -246,9 +250,69 @@ pub const TRIPWIRE_MS: u64 = 90_000;
 /// tripwire while exploring (a suspected hang is confirmed with the longer one in a fresh process)
 pub const TRIPWIRE_EXPLORE_MS: u64 = 20_000;
 
+/// A pipe pre-filled with the P-Code project and closed for writing: whoever opens
+/// `/proc/<pid>/fd/<read end>` reads the project followed by end-of-file, like a reader of the
+/// named pipe the Ghidra plugin writes to. `None` if the project does not fit into a pipe buffer.
+struct FilledPipe {
+    read_fd: i32,
+}
+
+impl FilledPipe {
+    fn new(data: &[u8]) -> Option<FilledPipe> {
+        extern "C" {
+            fn pipe(fds: *mut i32) -> i32;
+            fn fcntl(fd: i32, cmd: i32, arg: i32) -> i32;
+            fn write(fd: i32, buf: *const u8, n: usize) -> isize;
+            fn close(fd: i32) -> i32;
+        }
+        const F_SETFL: i32 = 4;
+        const O_NONBLOCK: i32 = 0o4000;
+        const F_SETPIPE_SZ: i32 = 1031;
+        if data.len() > 1_000_000 {
+            return None;
+        }
+        let mut fds = [0i32; 2];
+        unsafe {
+            if pipe(fds.as_mut_ptr()) != 0 {
+                return None;
+            }
+            fcntl(fds[1], F_SETPIPE_SZ, 1 << 20);
+            fcntl(fds[1], F_SETFL, O_NONBLOCK);
+            let mut off = 0usize;
+            while off < data.len() {
+                let n = write(fds[1], data[off..].as_ptr(), data.len() - off);
+                if n <= 0 {
+                    close(fds[0]);
+                    close(fds[1]);
+                    return None;
+                }
+                off += n as usize;
+            }
+            close(fds[1]);
+        }
+        Some(FilledPipe { read_fd: fds[0] })
+    }
+    fn path(&self) -> String {
+        format!("/proc/{}/fd/{}", std::process::id(), self.read_fd)
+    }
+}
+
+impl Drop for FilledPipe {
+    fn drop(&mut self) {
+        extern "C" {
+            fn close(fd: i32) -> i32;
+        }
+        unsafe {
+            close(self.read_fd);
+        }
+    }
+}
+
 pub fn run_cli(wd: &WorkDir, paths: &Paths, mode: &CliMode, env: &Env, lkm: bool) -> RunOut {
     let cfg = if lkm { wd.p("xdg/cwe_checker/lkm_config.json") } else { wd.p("xdg/cwe_checker/config.json") };
-    let argv = mode.argv(&wd.p("w.elf"), &wd.p("w.json"), &wd.p("out.txt"), &cfg);
+    let pipe = if env.pipe { std::fs::read(wd.p("w.json")).ok().and_then(|d| FilledPipe::new(&d)) } else { None };
+    let pcode = pipe.as_ref().map_or_else(|| wd.p("w.json"), |p| p.path());
+    let argv = mode.argv(&wd.p("w.elf"), &pcode, &wd.p("out.txt"), &cfg);
     run_raw(wd, paths, &argv, env)
 }
 
